@@ -96,13 +96,17 @@ def registry():
         mod = importlib.import_module("vf.families." + m.name)
         for pid, fn in getattr(mod, "PROPERTIES", {}).items():
             reg[pid] = fn
+        # coverage beyond the listed properties: EXTRAS = {"name": fn}, run with `./check X-name`
+        for name, fn in getattr(mod, "EXTRAS", {}).items():
+            reg["X-" + name] = fn
     return reg
 
 
 def write_evidence(ctx, violations, known):
     if env.REPO != "/repo":
         return   # a run against a scratch copy (mutant / selftest) is not evidence about /repo
-    os.makedirs(env.EVIDENCE, exist_ok=True)
+    evdir = env.EVIDENCE if not ctx.prop.startswith("X-") else os.path.join(env.VERIF, "evidence-extra")
+    os.makedirs(evdir, exist_ok=True)
     cov = {
         "states": ctx.states,
         "transitions": ctx.transitions,
@@ -126,10 +130,10 @@ def write_evidence(ctx, violations, known):
         "wall_s": round(time.time() - ctx.t0, 2),
         "violations": violations,
     }
-    tmp = os.path.join(env.EVIDENCE, ".%s.%d.tmp" % (ctx.prop, os.getpid()))
+    tmp = os.path.join(evdir, ".%s.%d.tmp" % (ctx.prop, os.getpid()))
     with open(tmp, "w") as f:
         json.dump(ev, f, indent=1, sort_keys=True)
-    os.replace(tmp, os.path.join(env.EVIDENCE, ctx.prop + ".json"))
+    os.replace(tmp, os.path.join(evdir, ctx.prop + ".json"))
 
 
 def run_check(prop, tier, seed, replay=None):
